@@ -151,6 +151,7 @@ type State struct {
 	lockCount int
 	writes    map[string]map[string]bool
 	hypSeen   map[string]bool
+	frames    []*inlFrame
 }
 
 func (s *State) clone() *State {
@@ -188,6 +189,7 @@ func (s *State) clone() *State {
 	for k, v := range s.hypSeen {
 		n.hypSeen[k] = v
 	}
+	n.frames = append([]*inlFrame(nil), s.frames...)
 	n.callN = make(map[string]int, len(s.callN))
 	for k, v := range s.callN {
 		n.callN[k] = v
